@@ -295,12 +295,25 @@ func c16r2(c *core.Ctx) {
 	}
 	// outer loop over event types, inner loop over m.observers[i] storing the unregistered marker into o.id
 	ok, covers := false, ""
+	outerOf := func(n ast.Node) (body *ast.BlockStmt, key string, bound string) {
+		switch l := n.(type) {
+		case *ast.RangeStmt:
+			if l.Key != nil {
+				return l.Body, m.ExprString(l.Key), m.ExprString(l.X)
+			}
+		case *ast.ForStmt:
+			if as, isAs := l.Init.(*ast.AssignStmt); isAs && len(as.Lhs) == 1 && l.Cond != nil {
+				return l.Body, m.ExprString(as.Lhs[0]), m.ExprString(l.Cond)
+			}
+		}
+		return nil, "", ""
+	}
 	core.InspectNoLits(f.Body, func(n ast.Node) bool {
-		outer, isR := n.(*ast.RangeStmt)
-		if !isR {
+		body, key, bound := outerOf(n)
+		if body == nil {
 			return true
 		}
-		ast.Inspect(outer.Body, func(x ast.Node) bool {
+		ast.Inspect(body, func(x ast.Node) bool {
 			inner, isR2 := x.(*ast.RangeStmt)
 			if !isR2 || inner.Value == nil {
 				return true
@@ -317,7 +330,7 @@ func c16r2(c *core.Ctx) {
 			if !isIx || fieldKeyOf(m, ix.X) != "observerManager.observers" {
 				return true
 			}
-			if ok2 := m.ExprString(ix.Index) == m.ExprString(outer.Key); !ok2 {
+			if m.ExprString(ix.Index) != key {
 				return true
 			}
 			ast.Inspect(inner.Body, func(y ast.Node) bool {
@@ -326,6 +339,7 @@ func c16r2(c *core.Ctx) {
 						if fieldKeyOf(m, l) == "observerData.id" && i < len(as.Rhs) {
 							if tv, okc := m.Info.Types[as.Rhs[i]]; okc && tv.Value != nil {
 								ok = true
+								covers = bound
 							}
 						}
 					}
@@ -334,7 +348,6 @@ func c16r2(c *core.Ctx) {
 			})
 			return true
 		})
-		covers = m.ExprString(outer.X)
 		return true
 	})
 	if ok {
@@ -344,11 +357,11 @@ func c16r2(c *core.Ctx) {
 	}
 	// the loop may skip events only by the emptiness flag of that event
 	core.InspectNoLits(f.Body, func(n ast.Node) bool {
-		outer, isR := n.(*ast.RangeStmt)
-		if !isR {
+		obody, _, _ := outerOf(n)
+		if obody == nil {
 			return true
 		}
-		for _, st := range outer.Body.List {
+		for _, st := range obody.List {
 			if is, isIf := st.(*ast.IfStmt); isIf && len(is.Body.List) == 1 {
 				if br, isBr := is.Body.List[0].(*ast.BranchStmt); isBr && br.Tok == token.CONTINUE {
 					cond := ast.Unparen(is.Cond)
